@@ -4,6 +4,7 @@ import PikaVerif.Lemmas.CVCov
 import PikaVerif.Lemmas.CVSolo
 import PikaVerif.Lemmas.CVCnt
 import PikaVerif.Lemmas.CVWf
+import PikaVerif.Lemmas.CVHold
 /-!
 # C07t — termination / bounded progress of the condition-variable operations (follow-up of C07)
 
@@ -522,5 +523,27 @@ example : (runLog step (init 3 false)
   decide
 
 example : (nallSolo 2 [0, 1] ++ wakeAllLog (fun g => decide (g = 1)) [0, 1]).length = 6 + 8 + 9 := by decide
+
+/-! ## Termination modulo spinning on the internal lock
+
+The model has no event for a failed attempt on the internal spinlock, so the bounds above bound the
+real code's events *modulo* such spinning.  A spinning episode lasts only while another thread holds
+the lock, and the holder is never blocked: -/
+
+/-- **The holder of the internal lock releases it within `|queue| + 4` of its own events**, in every
+    reachable state (`|queue|` only inside the pop loop of a `notify_all` / stop callback; at most 4
+    otherwise) — so a thread spinning on the internal lock waits for a bounded number of steps of
+    one other thread, which needs no other thread to move. -/
+theorem C07t_lock_released_within (s : St) (hr : Reachable s) (r : Nat) (hl : s.lock = some r) :
+    ∃ log s', log.length ≤ s.queue.length + 4 ∧ (∀ e, e ∈ log → actor e = r) ∧
+      runLog step s log = some s' ∧ s'.lock = none := by
+  obtain ⟨hi, hi2⟩ := hr.inv
+  exact holder_releases (s.queue.length + 4) s r hi hi2 hl (hm_le _ _ _)
+
+/-- non-vacuity: in `goodRun` after `cv.all` (the notifier holds the lock, one waiter queued) the
+    holder's solo run `popAll; slRel` releases the lock -/
+example : ∃ s s', runLog step (init 2 false) (goodRun.take 13) = some s ∧ s.lock = some 1 ∧
+    runLog step s [.popAll 1 0 0 false, .slRel 1] = some s' ∧ s'.lock = none := by
+  refine ⟨_, _, rfl, by decide, rfl, by decide⟩
 
 end PikaVerif.C07t
